@@ -297,7 +297,7 @@ func verifH_C06_json_texts() {
 	min := verifNondetFloat64("min")
 	verifAssume(min == min)
 	obj := &openapi3.Schema{Type: &openapi3.Types{"object"}, Required: []string{"a"}, Properties: openapi3.Schemas{"a": {Value: &openapi3.Schema{Type: &openapi3.Types{"integer"}, Min: &min}}}}
-	texts := []string{`{"a":5}`, `{"a":-2}`, `{"b":1}`, `[1]`, `7`, `{"a":5`, `{"a":5} trailing`, `{"a":5}{"a":6}`, ``, `  `, `null`, `{"a":5}}`, `{"a":5}]`, `{"a":5},`, `{"a":5} `+"\n"}
+	texts := []string{`{"a":5}`, `{"a":-2}`, `{"b":1}`, `[1]`, `7`, `{"a":5`, `{"a":5} trailing`, `{"a":5}{"a":6}`, ``, `  `, `null`, `{"a":5}}`, `{"a":5}]`, `{"a":5},`, `{"a":5} ` + "\n"}
 	k := verifChoose("text", len(texts))
 	rb := &openapi3.RequestBody{Required: true, Content: openapi3.Content{"application/json": &openapi3.MediaType{Schema: &openapi3.SchemaRef{Value: obj}}}}
 	op := &openapi3.Operation{RequestBody: &openapi3.RequestBodyRef{Value: rb}}
